@@ -99,7 +99,7 @@ def main():
             "guard": "cargo feature `verif-hooks` of rust-cc (off by default)",
             "enable": "the harness crate /verif/harness depends on /repo with features [std, derive, verif-hooks] + the configuration's own features; `./check` runs `cargo build --offline` per configuration into /verif/.build/<cfg>",
             "baseline_off_cmd": "cd /repo && cargo test --workspace --no-fail-fast --offline",
-            "source_commits": ["30a0711"],
+            "source_commits": ["30a0711", "8ae381a"],
             "add_only": True,
         },
         "engines": [
@@ -115,7 +115,7 @@ def main():
         ],
         "checks": checks,
         "not_applicable": na,
-        "notes": "Genuine defects found and repaired: see known_findings.json (F1-F3, three `fix:` commits in /repo). DESIGN.md records which seeded changes each check catches.",
+        "notes": "Genuine defects found and repaired: see known_findings.json (F1-F4, four `fix:` commits in /repo: 0e5f454, 9626c3f, 511db79, c29ee66). DESIGN.md records which seeded changes each check catches.",
     }
     json.dump(m, open(os.path.join(ROOT, "MANIFEST.json"), "w"), indent=1)
 
